@@ -29,7 +29,7 @@ class Lookup(Harness):
                  "antismash.common.secmet.features.feature:Feature.is_contained_by",
                  "antismash.common.secmet.features.feature:Feature.overlaps_with"]
     bound = "G <= 3 (quick) / 4 (thorough) genes with symbolic coordinates (nesting, equal starts allowed; optionally one origin-spanning gene), query simple or origin-spanning, with_overlapping both, symbolic record length"
-    outside = "G > 4; multi-exon genes in the lookup harness"
+    outside = "G > 4; genes with more than two exons"
     task_paths = 200
 
     def variants(self, tier):
@@ -41,6 +41,9 @@ class Lookup(Harness):
                     out.append({"genes": ["s"] * g, "query": q, "overlapping": ov})
                     if g <= (2 if tier == "quick" else 3):
                         out.append({"genes": ["s"] * (g - 1) + ["o"], "query": q, "overlapping": ov})
+                    if g == 2 or (tier == "thorough" and g == 3):
+                        # a spliced gene (two exons, intron between) among simple genes
+                        out.append({"genes": ["j2"] + ["s"] * (g - 1), "query": q, "overlapping": ov})
         return out
 
     def vars(self, var):
@@ -99,17 +102,23 @@ class Lookup(Harness):
 class BuildOrder(Harness):
     pid, name = "C08", "build_order"
     functions = [R + "add_cds_feature", R + "_link_cds_to_parent", R + "add_protocluster", R + "add_subregion",
-                 R + "get_cds_features_within_location",
+                 R + "create_regions", R + "add_region", R + "get_cds_features_within_location",
                  "antismash.common.secmet.features.cdscollection:CDSCollection.add_cds",
+                 "antismash.common.secmet.features.region.structures:Region.add_cds",
                  "antismash.common.secmet.features.protocluster:Protocluster.add_cds"]
-    bound = "G = 2 genes, one protocluster (core inside extent) and one subregion, every interleaving of the four add calls; symbolic coordinates; linear record"
-    outside = "more genes/areas; candidate clusters and regions in this harness (see C06)"
+    bound = ("G = 2 genes, one protocluster (core inside extent), one subregion and one create_regions() call, "
+             "interleavings of the five calls (6 representative orders quick, all 60 thorough); symbolic coordinates; linear record")
+    outside = "more genes/areas; candidate clusters in this harness (see C05/C06)"
+    task_paths = 300
 
     def variants(self, tier):
-        # order of the four operations: g0, g1, P(rotocluster), S(ubregion)
-        ops = ["g0", "g1", "P", "S"]
-        perms = [list(p) for p in itertools.permutations(ops) if p.index("g0") < p.index("g1")]
-        return [{"order": p} for p in perms]
+        ops = ["g0", "g1", "P", "S", "R"]
+        if tier == "quick":
+            orders = [["g0", "g1", "P", "S", "R"], ["P", "S", "R", "g0", "g1"], ["S", "R", "P", "g0", "g1"],
+                      ["S", "R", "g0", "P", "g1"], ["P", "g0", "S", "R", "g1"], ["S", "g0", "R", "P", "g1"]]
+        else:
+            orders = [list(p) for p in itertools.permutations(ops) if p.index("g0") < p.index("g1")]
+        return [{"order": p} for p in orders]
 
     def vars(self, var):
         d = {"n": "int"}
@@ -133,20 +142,39 @@ class BuildOrder(Harness):
                 rec.add_protocluster(proto)
             elif op == "S":
                 rec.add_subregion(sub)
+            elif op == "R":
+                rec.create_regions()
             else:
                 rec.add_cds_feature(genes[int(op[1])])
-        return [[genes.index(c) for c in proto.cds_children], [genes.index(c) for c in sub.cds_children]]
+        regions = rec.get_regions()
+        region_genes = [[genes.index(c) for c in r.cds_children] for r in regions]
+        gene_region = [(regions.index(g.region) if g.region is not None else -1) for g in genes]
+        return {"proto": [genes.index(c) for c in proto.cds_children], "sub": [genes.index(c) for c in sub.cds_children],
+                "regions": len(regions), "region_genes": region_genes, "gene_region": gene_region}
 
     def post(self, var, v, out):
         if is_raised(out):
             return [("no_raise", False)]
         cl = []
-        for idx, area in ((0, "pe"), (1, "sr")):
+        for key, area in (("proto", "pe"), ("sub", "sr")):
             a = model_parts(area, "s", v)
             for i in range(2):
                 g = model_parts("g%d" % i, "s", v)
-                cl.append(("area_lists_exactly_contained_genes", L.Iff(i in out[idx], contains_parts(a, g))))
-            cl.append(("no_duplicates", len(set(out[idx])) == len(out[idx])))
+                cl.append(("area_lists_exactly_contained_genes", L.Iff(i in out[key], contains_parts(a, g))))
+            cl.append(("no_duplicates", len(set(out[key])) == len(out[key])))
+        # the region exists iff the subregion was there when create_regions ran; its location is the subregion's
+        order = var["order"]
+        has_region = order.index("S") < order.index("R")
+        cl.append(("region_count", out["regions"] == (1 if has_region else 0)))
+        sr = model_parts("sr", "s", v)
+        for i in range(2):
+            g = model_parts("g%d" % i, "s", v)
+            if has_region and out["regions"] == 1:
+                inside = contains_parts(sr, g)
+                cl.append(("gene_points_to_the_region_containing_it", L.Iff(out["gene_region"][i] == 0, inside)))
+                cl.append(("region_lists_exactly_contained_genes", L.Iff(i in out["region_genes"][0], inside)))
+            else:
+                cl.append(("gene_points_to_the_region_containing_it", out["gene_region"][i] == -1))
         return cl
 
 
